@@ -20,6 +20,10 @@ def atomOf (t : Tok) : Option Atom := do
   | [k, ch, rid, rn, ic] =>
     pure { key := ← k.int?, res := { chain := ← optStrOf ch, resid := ← rid.optInt?, resname := ← optStrOf rn,
                                      icode := ← optStrOf ic }, mods := [], muts := [] }
+  | [k, ch, rid, rn, ic, mo, mu] =>      -- an atom that is annotated already
+    pure { key := ← k.int?, res := { chain := ← optStrOf ch, resid := ← rid.optInt?, resname := ← optStrOf rn,
+                                     icode := ← optStrOf ic },
+           mods := (← strs? mo).map String.toList, muts := (← strs? mu).map String.toList }
   | _ => none
 
 def edgeOf (t : Tok) : Option (Int × Int) := do
@@ -187,6 +191,28 @@ def handle (_ : Unit) (toks : List Tok) : Unit × String :=
                 encList (res.reports.map fun rp => encList [encS rp.mutmod, encKind rp.kind, encS rp.post])
             | .molecule atoms err => encErr err ++ " " ++ encList [encMol { atoms := atoms, edges := [] }] ++ " [ ]"))
         | _, _ => pure "valueerror"
+    | [Tok.str "pool", procs, mlib, blib, sys0, ops] => do
+        let lib : Lib := { protein := C19Table.proteinResidues,
+                           modifications := (← strs? mlib).map String.toList,
+                           blocks := (← strs? blib).map String.toList }
+        let procs ← (← procs.list?).mapM fun t => do
+          match ← t.list? with
+          | [mo, mu] =>
+            match parseRequests (← (← mo.list?).mapM pairOf), parseRequests (← (← mu.list?).mapM pairOf) with
+            | some pm, some pt => pure (pm, pt)
+            | _, _ => none
+          | _ => none
+        let sys0 ← (← sys0.list?).mapM molOf
+        let ops ← (← ops.list?).mapM fun t => do
+          match ← t.list? with
+          | [Tok.int 0, p, o] =>
+            let (pm, pt) ← procs[← p.nat?]?
+            pure (PoolOp.annotate pm pt (← o.nat?))
+          | [Tok.int 1, o] => pure (PoolOp.copy (← o.nat?))
+          | _ => none
+        let hist := poolHistory lib [sys0] ops
+        pure (" | ".intercalate (hist.map fun st =>
+          encErr st.2 ++ " " ++ encList (st.1.map fun sys => encList (sys.map encMol))))
     | [Tok.str "cli", nt, given] => do
         let g ← (← given.list?).mapM pairOf
         let b ← nt.nat?
